@@ -8,6 +8,7 @@ Report.violation(), and ends with Report.finish(), which
 """
 from __future__ import annotations
 
+import hashlib
 import json
 import os
 import sys
@@ -43,6 +44,7 @@ class Report:
         self.tlc_runs: list = []
         self.drift: list = []
         self._viol: list = []
+        self._viol_per_key: dict = {}
         self._known_seen: dict = {}
         self._known = findings.load(pid)
         REPLAYS.mkdir(parents=True, exist_ok=True)
@@ -62,7 +64,9 @@ class Report:
             self.samples.append(obj)
 
     def note_nontrivial(self, key) -> None:
-        self.nontrivial.add(key if isinstance(key, (str, int, tuple)) else json.dumps(key, sort_keys=True, default=str))
+        # only the NUMBER of distinct keys is reported: keep an 8-byte digest, not the text (millions of cases in thorough tiers)
+        text = key if isinstance(key, str) else repr(key) if isinstance(key, (int, tuple)) else json.dumps(key, sort_keys=True, default=str)
+        self.nontrivial.add(hashlib.blake2b(text.encode("utf-8", "replace"), digest_size=8).digest())
 
     def add_drift(self, what: str, case=None) -> None:
         if len(self.drift) < 50:
@@ -77,11 +81,14 @@ class Report:
             d = self._known_seen.setdefault(k["key"], {"entry": k, "count": 0, "example": case})
             d["count"] += 1
             return
-        self._viol.append({"key": key, "what": what, "case": case})
+        self._viol_total = getattr(self, "_viol_total", 0) + 1
+        n_key = self._viol_per_key[key] = self._viol_per_key.get(key, 0) + 1
+        if n_key <= 3 or len(self._viol) < 2000:  # every key keeps its first cases; the total is counted
+            self._viol.append({"key": key, "what": what, "case": case})
 
     @property
     def n_violations(self) -> int:
-        return len(self._viol)
+        return max(len(self._viol), getattr(self, "_viol_total", 0))
 
     # ---- the end ------------------------------------------------------
     def finish(self) -> int:
@@ -127,12 +134,12 @@ class Report:
             "coverage": cov,
             "assumptions": self.assumptions,
             "wall_s": round(time.time() - self.t0, 2),
-            "violations": len(self._viol),
+            "violations": self.n_violations,
         }
         (EVID / f"{self.pid}.json").write_text(json.dumps(ev, indent=1, default=str) + "\n")
         status = 1 if self._viol else 0
         print(f"{self.pid} {self.tier}: states={self.states} transitions={self.transitions} impl_cases={self.traces} "
-              f"violations={len(self._viol)} known={len(self._known_seen)} drift={self.extra.get('alg_drift_count', 0)} "
+              f"violations={self.n_violations} known={len(self._known_seen)} drift={self.extra.get('alg_drift_count', 0)} "
               f"wall={ev['wall_s']}s -> exit {status}", flush=True)
         return status
 
